@@ -1,6 +1,7 @@
 """Driving the 24 shipped classes: construction with exactly-representable parameters, recording random
-samples through the real API, canonical dumps of the state before / after set_class_constraints()."""
-import importlib
+samples through the real API, canonical dumps of the state before / after set_class_constraints().
+
+Used by harness/classgen_stream.py (C04, C17, C03)."""
 import random
 from fractions import Fraction
 
@@ -10,8 +11,9 @@ from .common import coq_q, coq_nat, coq_list, coq_str, Q
 INF = float("inf")
 PARAMS = {"L": 0, "mu": 1, "M": 2, "D": 3, "beta": 4, "rho": 5}
 
-# class -> (module, admissible parameter draws).  Draws are chosen so that every scalar computed by the
-# class formulas is exact in binary floating point (powers of two for L, mu in {0, L/2}, dyadic others).
+
+# class -> admissible parameter draws.  Draws are chosen so that every scalar computed by the class
+# formulas is exact in binary floating point (powers of two for L, mu in {0, L/2}, dyadic others).
 def _L(rng):
     return rng.choice([0.5, 1, 1.0, 2, 2.0, 4.0])
 
@@ -42,18 +44,21 @@ def draw_params(rng, name):
         return {"rho": rng.choice([0.5, 1, 2.0, 0.25])}
     if name == "CocoerciveStronglyMonotoneOperator":
         return {"mu": rng.choice([0.5, 1, 0.25]), "beta": rng.choice([0.5, 1, 0.25])}
+    if name == "BlockSmoothConvexFunction":
+        d = rng.choice([1, 2, 2, 3])
+        return {"d": d, "L": [rng.choice([0.5, 1, 1.0, 2.0, 4]) for _ in range(d)]}
     raise KeyError(name)
 
 
 FUNCTION_CLASSES = ["ConvexFunction", "ConvexIndicatorFunction", "ConvexLipschitzFunction", "ConvexQGFunction",
                     "ConvexSupportFunction", "RsiEbFunction", "SmoothConvexFunction", "SmoothConvexLipschitzFunction",
                     "SmoothFunction", "SmoothStronglyConvexFunction", "SmoothStronglyConvexQuadraticFunction",
-                    "StronglyConvexFunction"]
+                    "StronglyConvexFunction", "BlockSmoothConvexFunction"]
 OPERATOR_CLASSES = ["CocoerciveOperator", "CocoerciveStronglyMonotoneOperator", "LinearOperator", "LipschitzOperator",
                     "LipschitzStronglyMonotoneOperator", "MonotoneOperator", "NegativelyComonotoneOperator",
                     "NonexpansiveOperator", "SkewSymmetricLinearOperator", "StronglyMonotoneOperator",
                     "SymmetricLinearOperator"]
-ALL_CLASSES = FUNCTION_CLASSES + OPERATOR_CLASSES     # BlockSmoothConvexFunction is driven by the blocks harness
+ALL_CLASSES = FUNCTION_CLASSES + OPERATOR_CLASSES     # the 24 shipped classes
 
 
 def get_class(name):
@@ -86,53 +91,126 @@ def rand_expr(rng, xleaves, leaves):
     return e
 
 
-def build_function(rng, name, nsamples=None, named=None):
-    """fresh PEP; one function of class `name` with random recorded samples.  Returns (func, context)"""
+POINT_NAMES = ["x0", "xs", "y", "z1", "w"]
+
+
+def declare(pep, rng, name, params, named):
+    kwargs = dict(params)
+    if name == "BlockSmoothConvexFunction":
+        d = kwargs.pop("d")
+        kwargs["partition"] = pep.declare_block_partition(d=d)
+    if named:
+        kwargs["name"] = rng.choice(["f", "h", "A_op", "F1"])
+    return pep.declare_function(get_class(name), **kwargs)
+
+
+def build_function(rng, name, nsamples=None, named=None, stationary_at=None):
+    """fresh PEP; one function of class `name` with random recorded samples, through the real API:
+    oracle / gradient / value / stationary_point / fixed_point / add_point, repeated evaluations at the same
+    point, the same triplet object added twice, named and unnamed points.  `stationary_at` in
+    {None, "first", "middle", "last", "none"} forces where stationary points are declared.
+    Returns (func, context)."""
     from PEPit import PEP, Point, Expression
     pep = PEP()
     params = draw_params(rng, name)
-    kwargs = dict(params)
     if named is None:
         named = rng.random() < 0.3
-    if named:
-        kwargs["name"] = rng.choice(["f", "h", "A_op", "F1"])
-    func = pep.declare_function(get_class(name), **kwargs)
+    func = declare(pep, rng, name, params, named)
     leaves = [Point() for _ in range(rng.randint(2, 4))]
     xleaves = []
-    n = nsamples if nsamples is not None else rng.choice([0, 1, 2, 2, 3, 3, 4])
+    n = nsamples if nsamples is not None else rng.choice([0, 1, 2, 2, 3, 3, 4, 5])
     kinds = []
-    for _ in range(n):
+    quad = (name == "SmoothStronglyConvexQuadraticFunction")
+    if stationary_at is None:
+        stationary_at = rng.choice([None, None, "first", "middle", "last", "none"])
+    forced = {"first": 0, "middle": n // 2, "last": n - 1}.get(stationary_at, None)
+    seen_points = []
+    last_triplet = None
+    for step in range(n):
         r = rng.random()
-        if r < 0.15 and name != "SmoothStronglyConvexQuadraticFunction":
-            x = func.stationary_point()
+        if forced is not None:
+            want_stat = (step == forced)
+        elif stationary_at == "none":
+            want_stat = False
+        else:
+            want_stat = r < 0.15
+        if want_stat:
+            x = func.stationary_point()     # quadratic class: returns the unique one created by the constructor
             kinds.append("stationary")
         elif r < 0.25:
-            func.fixed_point()
+            x = func.fixed_point()[0]
             kinds.append("fixed")
-        elif r < 0.5:
+        elif r < 0.40:
             x = rand_point(rng, leaves)
             func.oracle(x)
+            seen_points.append(x)
             kinds.append("oracle")
+        elif r < 0.50:
+            x = rand_point(rng, leaves)
+            func.gradient(x)
+            seen_points.append(x)
+            kinds.append("gradient")
+        elif r < 0.60 and seen_points:
+            # repeated evaluation at an already evaluated point (same Point object, or an equal new one)
+            x = rng.choice(seen_points)
+            if rng.random() < 0.5:
+                func.oracle(x)
+            else:
+                func.value(x)
+            kinds.append("repeat")
+        elif r < 0.66 and last_triplet is not None:
+            func.add_point(last_triplet)     # the very same tuple object a second time
+            x = last_triplet[0]
+            kinds.append("same_triplet")
+        elif r < 0.72 and func.list_of_points:
+            # same Point objects x and g, another function value (matters for tuple == in BlockSmooth)
+            x0, g0, _ = rng.choice(func.list_of_points)
+            last_triplet = (x0, g0, rand_expr(rng, xleaves, leaves))
+            func.add_point(last_triplet)
+            x = x0
+            kinds.append("same_x_g")
         else:
             x = rand_point(rng, leaves)
             g = rand_point(rng, leaves) if rng.random() < 0.8 else Point()
             f = rand_expr(rng, xleaves, leaves)
-            func.add_point((x, g, f))
+            last_triplet = (x, g, f)
+            func.add_point(last_triplet)
+            seen_points.append(x)
             kinds.append("add_point")
         if rng.random() < 0.25 and func.list_of_points:
-            func.list_of_points[-1][0].set_name(rng.choice(["x0", "xs", "y", "z1"]))
+            func.list_of_points[-1][0].set_name(rng.choice(POINT_NAMES))
     if name == "LinearOperator":
         for _ in range(rng.choice([0, 1, 2, 3])):
             u = rand_point(rng, leaves)
             func.T.gradient(u)
             kinds.append("T.gradient")
+            if rng.random() < 0.25:
+                func.T.list_of_points[-1][0].set_name(rng.choice(POINT_NAMES))
     if name == "NonexpansiveOperator" and rng.random() < 0.5:
         func.v = rng.choice([Point(), rand_point(rng, leaves)])
         kinds.append("v")
-    return func, dict(params=params, kinds=kinds, named=named, pep=pep)
+    return func, dict(params=params, kinds=kinds, named=named, pep=pep, stationary_at=stationary_at)
 
 
 # ------------------------------------------------------------------ dumps
+class ObjIds(object):
+    """object identity -> small integer, in order of first request (keeps the objects alive, so that ids stay
+    unique)"""
+    def __init__(self):
+        self.ids = {}
+        self.keep = []
+
+    def get(self, o):
+        k = id(o)
+        if k not in self.ids:
+            self.ids[k] = len(self.ids)
+            self.keep.append(o)
+        return self.ids[k]
+
+    def __len__(self):
+        return len(self.ids)
+
+
 def leaf_maps():
     from PEPit import Point, Expression
     pid = T.IdMap()
@@ -144,10 +222,12 @@ def leaf_maps():
     return pid, xid
 
 
-def py_sample(tr, pid, xid):
+def py_sample(tr, pid, xid, oid):
+    """dump of one recorded triplet (what Model.ClassDump.dump_sample prints)"""
     x, g, f = tr
     return [T.dump_pdict(x.decomposition_dict, pid), T.dump_pdict(g.decomposition_dict, pid),
-            T.dump_edict(f.decomposition_dict, pid, xid), [] if x.get_name() is None else [x.get_name()]]
+            T.dump_edict(f.decomposition_dict, pid, xid), [] if x.get_name() is None else [x.get_name()],
+            oid.get(tr)]
 
 
 def coq_pd(items):
@@ -166,62 +246,120 @@ def coq_ed(items):
     return coq_list(["(%s, %s)" % (coq_ek(k), coq_q(v.v)) for k, v in items])
 
 
-def coq_sample(s):
-    return "mkSample %s %s %s %s" % (coq_pd(s[0]), coq_pd(s[1]), coq_ed(s[2]),
-                                     ("(Some %s)" % coq_str(s[3][0])) if s[3] else "None")
+def coq_sample(tr, pid, xid, oid, partition=None):
+    x, g, f = tr
+    uid = oid.get(tr)
+    xi, gi = oid.get(x), oid.get(g)
+    blocks = []
+    if partition is not None:
+        blocks = [coq_pd(T.dump_pdict(partition.get_block(g, k).decomposition_dict, pid))
+                  for k in range(partition.get_nb_blocks())]
+    nm = x.get_name()
+    return "(mkSample %s %s %s %s %s %s %s %s)" % (
+        coq_pd(T.dump_pdict(x.decomposition_dict, pid)), coq_pd(T.dump_pdict(g.decomposition_dict, pid)),
+        coq_ed(T.dump_edict(f.decomposition_dict, pid, xid)),
+        "None" if nm is None else "(Some %s)" % coq_str(nm), coq_nat(uid), coq_nat(xi), coq_nat(gi),
+        coq_list(blocks))
 
 
-def coq_fstate(func):
-    """Coq literal of Model.ClassGen.fstate for the function's current state"""
+def coq_state(fid, par, inf, pts, stat, tpts, v, oid, partition=None, Lk=None, next_point=None, next_expr=None):
+    """Coq literal of Model.ClassGen.fstate.  pts / stat / tpts: lists of triplets (Python objects)."""
     from PEPit import Point, Expression
+    # every gradient must be partitioned before leaf ids are collected (get_block creates leaf points)
+    if partition is not None:
+        for tr in list(pts) + list(stat) + list(tpts):
+            partition.get_block(tr[1], 0)
     pid, xid = leaf_maps()
+    # identities: tuple, x, g of every sample, in list order (the model's auto_stationary follows the same rule)
+    for tr in list(pts) + list(stat) + list(tpts):
+        oid.get(tr), oid.get(tr[0]), oid.get(tr[1])
+    parf = "(fun p => match p with %s | _ => 0%%Q end)" % " ".join(
+        "| %s => %s" % (coq_nat(i), coq_q(v_)) for i, v_ in sorted(par.items())) if par else "(fun _ => 0%Q)"
+    inff = "(fun p => match p with %s | _ => false end)" % " ".join(
+        "| %s => true" % coq_nat(i) for i in sorted(inf)) if inf else "(fun _ => false)"
+    vlit = "None" if v is None else "(Some %s)" % coq_pd(T.dump_pdict(v.decomposition_dict, pid))
+    nb = partition.get_nb_blocks() if partition is not None else 0
+    if Lk:
+        lkf = "(fun k => match k with %s | _ => 0%%Q end)" % " ".join(
+            "| %s => %s" % (coq_nat(i), coq_q(T.to_fraction(v_))) for i, v_ in enumerate(Lk))
+    else:
+        lkf = "(fun _ => 0%Q)"
+    samples = lambda l: coq_list([coq_sample(t, pid, xid, oid, partition) for t in l])
+    return "(mkF %s %s %s %s %s %s %s %s %s %s %s %s)" % (
+        coq_str(fid), parf, inff, samples(pts), samples(stat), samples(tpts), vlit,
+        coq_nat(Point.counter if next_point is None else next_point),
+        coq_nat(Expression.counter if next_expr is None else next_expr),
+        coq_nat(len(oid)), coq_nat(nb), lkf)
+
+
+def function_id(func):
     fid = func.get_name()
     if fid is None:
         fid = "Function_{}".format(func.counter)
-    par = {}
-    inf = {}
+    return fid
+
+
+def coq_fstate(func, oid=None):
+    """Coq literal of the function's current state (call it BEFORE set_class_constraints; for
+    BlockSmoothConvexFunction every recorded gradient is partitioned first, so that generation creates no point)"""
+    if oid is None:
+        oid = ObjIds()
+    par, inf = {}, {}
     for nm, idx in PARAMS.items():
         if hasattr(func, nm) and not isinstance(getattr(func, nm), list):
-            v = getattr(func, nm)
-            if v == INF:
+            val = getattr(func, nm)
+            if val == INF:
                 inf[idx] = True
                 par[idx] = Fraction(0)
             else:
-                par[idx] = T.to_fraction(v)
-    parf = "(fun p => match p with %s | _ => 0%%Q end)" % " ".join(
-        "| %s => %s" % (coq_nat(i), coq_q(v)) for i, v in sorted(par.items())) if par else "(fun _ => 0%Q)"
-    inff = "(fun p => match p with %s | _ => false end)" % " ".join(
-        "| %s => true" % coq_nat(i) for i in sorted(inf)) if inf else "(fun _ => false)"
-    pts = [py_sample(t, pid, xid) for t in func.list_of_points]
-    stat = [py_sample(t, pid, xid) for t in func.list_of_stationary_points]
-    tpts = [py_sample(t, pid, xid) for t in func.T.list_of_points] if hasattr(func, "T") else []
-    v = getattr(func, "v", None)
-    vlit = "None" if v is None else "(Some %s)" % coq_pd(T.dump_pdict(v.decomposition_dict, pid))
-    return "mkF %s %s %s %s %s %s %s %s %s" % (
-        coq_str(fid), parf, inff, coq_list([coq_sample(s) for s in pts]), coq_list([coq_sample(s) for s in stat]),
-        coq_list([coq_sample(s) for s in tpts]), vlit, coq_nat(Point.counter), coq_nat(Expression.counter))
+                par[idx] = T.to_fraction(val)
+    partition = getattr(func, "partition", None)
+    Lk = func.L if partition is not None else None
+    if partition is not None and not isinstance(Lk, list):
+        Lk = [Lk]
+    tpts = func.T.list_of_points if hasattr(func, "T") else []
+    return coq_state(function_id(func), par, inf, func.list_of_points, func.list_of_stationary_points, tpts,
+                     getattr(func, "v", None), oid, partition=partition, Lk=Lk)
 
 
 def py_citem(c, pid, xid):
     return [[] if c.get_name() is None else [c.get_name()], T.dump_constraint(c, pid, xid)]
 
 
-def py_genout(func, n_psd_before):
-    """expected dump of Model.ClassDump.dump_genout after func.set_class_constraints()"""
-    import numpy as np
-    from PEPit import Point, Expression
+def py_tables(func, pid, xid):
+    """tables_of_constraints, cell by cell: [] for a scalar, [position in list_of_class_constraints, object]"""
     from PEPit.constraint import Constraint
-    pid, xid = leaf_maps()
-    cons = [py_citem(c, pid, xid) for c in func.list_of_class_constraints]
-    lmis = []
-    for m in func.list_of_class_psd[n_psd_before:]:
-        lmis.append([[T.dump_edict(e.decomposition_dict, pid, xid) for e in row] for row in m.matrix_of_expressions])
+    pos = {id(c): k for k, c in enumerate(func.list_of_class_constraints)}
     tables = []
     for cname, df in func.tables_of_constraints.items():
         rows = []
-        vals = df.values if hasattr(df, "values") else df
-        for row in vals:
-            rows.append([py_citem(el, pid, xid) if isinstance(el, Constraint) else [] for el in row])
-        tables.append([cname, rows])
-    return [cons, lmis, tables, [py_sample(t, pid, xid) for t in func.list_of_points],
-            [py_sample(t, pid, xid) for t in func.list_of_stationary_points], Point.counter, Expression.counter]
+        for row in df.values:
+            rows.append([[pos.get(id(el), -1), py_citem(el, pid, xid)] if isinstance(el, Constraint) else []
+                         for el in row])
+        tables.append([cname, rows, [str(x) for x in df.index], [str(x) for x in df.columns], str(df.columns.name)])
+    return tables
+
+
+def py_duals(func):
+    """tag the p-th class constraint with dual value p, then read the real accessor"""
+    for k, c in enumerate(func.list_of_class_constraints):
+        c._dual_variable_value = float(k)
+    out = []
+    for cname, df in func.get_class_constraints_duals().items():
+        out.append([cname, [[Q(T.to_fraction(v)) for v in row] for row in df.values]])
+    return out
+
+
+def py_genout(func, oid, points=None, stat=None):
+    """expected dump of Model.ClassDump.dump_genout after func.set_class_constraints()"""
+    from PEPit import Point, Expression
+    pid, xid = leaf_maps()
+    cons = [py_citem(c, pid, xid) for c in func.list_of_class_constraints]
+    lmis = []
+    for m in func.list_of_class_psd:
+        lmis.append([[T.dump_edict(e.decomposition_dict, pid, xid) for e in row] for row in m.matrix_of_expressions])
+    points = func.list_of_points if points is None else points
+    stat = func.list_of_stationary_points if stat is None else stat
+    return [cons, lmis, py_tables(func, pid, xid), py_duals(func),
+            [py_sample(t, pid, xid, oid) for t in points], [py_sample(t, pid, xid, oid) for t in stat],
+            Point.counter, Expression.counter]
